@@ -1101,6 +1101,16 @@ def fam_recordings(ctx, rng):
             pass
         if not (~obj.valid_window_boolean_mask).any() and rng.random() < 0.7:
             steps = steps + [histories.step_manual(rng, obj, [obj])]
+        if rng.random() < 0.3:
+            # a rejection written by hand in one line: both masks are bound to ONE array (the plot functions still leave
+            # the object as it was and draw that state)
+            m = np.asarray(obj.valid_window_boolean_mask, bool) & np.asarray(obj.valid_peak_boolean_mask, bool)
+            ok = np.flatnonzero(m)
+            if ok.size >= 4:
+                m[rng.choice(ok, size=int(rng.integers(1, max(2, ok.size // 3))), replace=False)] = False
+            obj.valid_window_boolean_mask = obj.valid_peak_boolean_mask = m
+            steps = steps + [["both masks bound to one array", m.astype(int).tolist()]]
+            ctx.count("states_with_both_masks_bound_to_one_array")
         battery(ctx, rng, obj, "traditional", steps, recs=recs, force=["prepost", "3c"] + (["table"] if rng.random() < 0.5 else []))
     finally:
         close_figures()
